@@ -113,7 +113,22 @@ struct Case {
     default_spelling: bool,
 }
 
-fn option_args(c: &Case, targets_via: usize, dir: &str, tag: &str) -> Result<Vec<String>, String> {
+/// Render a target config file: one name per line; line ends LF or CRLF, with or without a
+/// final line break, optionally with a duplicated name (the target set is a set).
+fn target_file_text(names: &[String], style: u64) -> String {
+    let le = if style & 1 == 1 { "\r\n" } else { "\n" };
+    let mut v: Vec<String> = names.to_vec();
+    if style & 2 == 2 && !v.is_empty() {
+        v.push(v[0].clone());
+    }
+    let mut s = v.join(le);
+    if style & 4 == 4 {
+        s.push_str(le);
+    }
+    s
+}
+
+fn option_args(c: &Case, targets_via: usize, dir: &str, tag: &str, style: u64) -> Result<Vec<String>, String> {
     let mut a: Vec<String> = vec![];
     if !c.default_spelling {
         a.push(format!("--delimiter-start={}", c.sp.ds));
@@ -137,7 +152,7 @@ fn option_args(c: &Case, targets_via: usize, dir: &str, tag: &str) -> Result<Vec
         1 => {
             if !t.is_empty() {
                 let f = format!("{dir}/targets-{tag}.txt");
-                std::fs::write(&f, format!("{}\n", t.join("\n"))).map_err(|e| e.to_string())?;
+                std::fs::write(&f, target_file_text(t, style | 4)).map_err(|e| e.to_string())?;
                 a.push(format!("--removal-marker-target-config={f}"));
             }
         }
@@ -146,7 +161,7 @@ fn option_args(c: &Case, targets_via: usize, dir: &str, tag: &str) -> Result<Vec
             let h = t.len() / 2;
             if h > 0 {
                 let f = format!("{dir}/targets-{tag}.txt");
-                std::fs::write(&f, t[..h].join("\n")).map_err(|e| e.to_string())?;
+                std::fs::write(&f, target_file_text(&t[..h], style)).map_err(|e| e.to_string())?;
                 a.push(format!("--removal-marker-target-config={f}"));
             }
             for x in &t[h..] {
@@ -177,7 +192,7 @@ fn judge_case(ctx: &mut Ctx, bin: &str, dir: &str, c: &Case, mode: Mode, variant
     let targets_via = ((variant / 6) % 3) as usize;
     let tz = TZS[((variant / 18) % 4) as usize];
     let lang = if (variant / 72) % 2 == 0 { Some("C") } else { Some("ja_JP.UTF-8") };
-    let mut args = match option_args(c, targets_via, dir, &tag) {
+    let mut args = match option_args(c, targets_via, dir, &tag, variant / 144) {
         Ok(a) => a,
         Err(e) => {
             ctx.inconclusive(&format!("cannot write target file: {e}"));
@@ -308,6 +323,14 @@ fn gen_case(seed: u64, i: u64) -> Case {
         cfg.targets.clear();
     }
     // CRLF line ends now and then (the binary must pass them through like the library does)
+    // now and then a document larger than a pipe buffer (64 KiB): the same document repeated
+    let big = r.chance(1, 40);
+    let rd = if big {
+        let reps = 70_000 / rd.text.len().max(1) + 1;
+        crate::doc::Rendered { text: vec![rd.text.as_str(); reps].join("\n"), elems: vec![] }
+    } else {
+        rd
+    };
     let text = match r.below(12) {
         0 => rd.text.replace('\n', "\r\n"),
         1 => {
@@ -350,7 +373,7 @@ pub fn run(ctx: &mut Ctx) {
         // one full equivalence class sample: base variant + 2 random other variants
         judge_case(ctx, &bin, &dir, &c, mode, 0, "equivalence", false);
         for _ in 0..2 {
-            judge_case(ctx, &bin, &dir, &c, mode, r.next() % 144, "equivalence", false);
+            judge_case(ctx, &bin, &dir, &c, mode, r.next() % (144 * 8), "equivalence", false);
         }
     }
     // ---- defaults: documents written with names harvested from the option defaults;
